@@ -287,6 +287,8 @@ let apply_oracle (name : string) (sc : scenario) (o : observation) : bool option
   | "c13" -> c13_oracle sc o
   | "c10k" -> c10k_oracle sc o
   | "c13k" -> c13k_oracle sc o
+  | "c03" -> c03_oracle sc o
+  | "c03m" -> c03_mloc_oracle sc o
   | _ -> failwith ("unknown oracle " ^ name)
 
 let oracle name scen_file obs_file =
